@@ -14,7 +14,8 @@ disjoint and well formed; nothing said that this gives the hypotheses of the sea
 * `bin_search_on_split_exons`, `bin_search_rev_on_split_exons`: the two search theorems with their list hypotheses
   discharged for the caller's argument;
 * `bin_search_on_split_exons_total`: on the split exons of a non-empty exon list the forward search never raises and never
-  runs out of fuel: for EVERY position it returns an index;
+  runs out of fuel: for EVERY position it returns an index; `exists_end_gap`, `bin_search_rev_on_split_exons_total`: the same
+  for the mirror search;
 * `bin_search_empty`, `bin_search_rev_empty`: on `[]` both searches raise (`ordered_intervals[-1]`, IndexError) — the case
   the audit found unreachable today only because of a dead test in `construct_fl_isoforms`;
 * `sorted_overlapping_not_searchable`: a list that is merely sorted by start (what `exon_profiles.features` is) does NOT
@@ -155,5 +156,49 @@ theorem bin_search_rev_empty (pos : Int) : intervalBinSearchRev [] pos = none :=
 theorem sorted_overlapping_not_searchable :
     ¬ StrictInc ([(100, 300), (100, 200), (150, 250)].map (·.1)) ∧
     ¬ StrictInc ([(100, 300), (100, 200), (150, 250)].map (fun r => r.2 + 1)) := by simp [StrictInc]
+
+/-- a position behind the first end and not behind the last end lies in exactly one gap `(l[t].2, l[t+1].2]` between
+    consecutive ends (any list: no ordering hypothesis is needed for existence) -/
+theorem exists_end_gap : ∀ (l : List Iv) (f tl : Iv), l.head? = some f → l.getLast? = some tl →
+    ∀ pos, f.2 < pos → pos ≤ tl.2 → ∃ (t : Nat) (a b : Iv), l[t]? = some a ∧ l[t + 1]? = some b ∧ a.2 < pos ∧ pos ≤ b.2
+  | [], _, _, hf, _, _, _, _ => by simp at hf
+  | [x], f, tl, hf, ht, pos, h1, h2 => by
+    simp at hf ht; subst hf; subst ht; omega
+  | x :: y :: t, f, tl, hf, ht, pos, h1, h2 => by
+    simp at hf; subst hf
+    by_cases hy : pos ≤ y.2
+    · exact ⟨0, x, y, by simp, by simp, h1, hy⟩
+    · have ht' : (y :: t).getLast? = some tl := by simpa [List.getLast?_cons_cons] using ht
+      obtain ⟨k, a, b, ha, hb, h3, h4⟩ := exists_end_gap (y :: t) y tl (by simp) ht' pos (by omega) h2
+      exact ⟨k + 1, a, b, by simpa using ha, by simpa using hb, h3, h4⟩
+
+/-- **bin_search_rev_on_split_exons_total**: the mirror search on the split exons of a non-empty, well-formed exon list
+    returns an index for EVERY position as well — it never raises, its `l[ind-1]` never leaves the list unnoticed and the
+    halving loop never runs out of fuel (closes the item left partial after the hypothesis audit) -/
+theorem bin_search_rev_on_split_exons_total (exons : List Iv) (hne : exons ≠ []) (w : WFl exons)
+    (hpos : ∀ e ∈ exons, 0 ≤ e.1) (pos : Int) :
+    ∃ blocks i, splitExons exons = some blocks ∧ intervalBinSearchRev blocks pos = some i := by
+  obtain ⟨blocks, hb, _, _, he, hnb⟩ := split_exons_searchable exons w hpos
+  have hbn := hnb hne
+  obtain ⟨f, hf⟩ : ∃ f, blocks.head? = some f := by
+    cases blocks with
+    | nil => exact absurd rfl hbn
+    | cons x _ => exact ⟨x, rfl⟩
+  obtain ⟨tl, ht⟩ : ∃ tl, blocks.getLast? = some tl := by
+    cases h : blocks.getLast? with
+    | none => simp [List.getLast?_eq_none_iff] at h; exact absurd h hbn
+    | some x => exact ⟨x, rfl⟩
+  refine ⟨blocks, ?_⟩
+  by_cases hout : pos > tl.2 ∨ pos < f.1
+  · exact ⟨-1, hb, bin_search_rev_outside blocks pos f tl hf ht hout⟩
+  · by_cases hl : pos ≤ f.2
+    · exact ⟨0, hb, bin_search_rev_first blocks pos f tl hf ht (by omega) hl (by omega)⟩
+    · obtain ⟨t, a, b, hta, htb, hpa, hpb⟩ := exists_end_gap blocks f tl hf ht pos (by omega) (by omega)
+      exact ⟨(t : Int) + 1, hb, bin_search_rev_spec blocks pos he f tl hf ht t a b hta htb hpa hpb (by omega)⟩
+
+-- the value at a position inside an intron of the split exons (350 lies between the ends 300 and 500)
+example : ∃ blocks, splitExons [(100, 200), (150, 300), (400, 500)] = some blocks ∧
+    intervalBinSearchRev blocks 350 = some 3 :=
+  ⟨[(100, 149), (150, 200), (201, 300), (400, 500)], by decide +kernel, by decide⟩
 
 end IsoVerif.Props.C19Compose
